@@ -59,6 +59,18 @@ pub struct Case {
     /// Some -> the balanced-channel family instead of the history above
     #[serde(default)]
     pub balanced: Option<Balanced>,
+    /// Some -> the unix-socket family
+    #[serde(default)]
+    pub uds: Option<Uds>,
+}
+
+/// A `unix:` endpoint (tonic's own UDS connector, real sockets, real-time runtime): `calls` unary calls, the
+/// server starts listening right before call `up_before` (0: from the start; >= calls: never).
+#[derive(Clone, Debug, Serialize, Deserialize, PartialEq, Eq)]
+pub struct Uds {
+    pub lazy: bool,
+    pub calls: u8,
+    pub up_before: u8,
 }
 
 /// `Channel::balance_list` over endpoints that are all down (loopback ports nobody listens on): balanced
@@ -86,7 +98,7 @@ pub fn strategy() -> BoxedStrategy<Case> {
                 1 => (1u16..500).prop_map(Step::Idle),
             ];
             (proptest::collection::vec(att, 1..8), proptest::collection::vec(step, 1..=12), pipe_schedule(), pipe_schedule(), any::<u64>(), proptest::bool::weighted(0.3))
-                .prop_map(move |(attempts, steps, c2s, s2c, rt_seed, gated_connector)| Case { lazy, attempts, steps, connect_timeout_ms: cto, c2s, s2c, rt_seed, gated_connector, balanced: None })
+                .prop_map(move |(attempts, steps, c2s, s2c, rt_seed, gated_connector)| Case { lazy, attempts, steps, connect_timeout_ms: cto, c2s, s2c, rt_seed, gated_connector, balanced: None, uds: None })
         })
         .boxed();
     let balanced = (1u8..=3, 1u8..=4).prop_map(|(endpoints, calls)| Case {
@@ -99,8 +111,21 @@ pub fn strategy() -> BoxedStrategy<Case> {
         rt_seed: 0,
         gated_connector: false,
         balanced: Some(Balanced { endpoints, calls }),
+        uds: None,
     });
-    prop_oneof![49 => plain, 1 => balanced].boxed()
+    let uds = (any::<bool>(), 1u8..=4, 0u8..=4).prop_map(|(lazy, calls, up_before)| Case {
+        lazy,
+        attempts: vec![Attempt::Refused],
+        steps: vec![],
+        connect_timeout_ms: None,
+        c2s: vec![],
+        s2c: vec![],
+        rt_seed: 0,
+        gated_connector: false,
+        balanced: None,
+        uds: Some(Uds { lazy, calls, up_before }),
+    });
+    prop_oneof![97 => plain, 2 => balanced, 1 => uds].boxed()
 }
 
 /// more connection attempts than this while ONE call is outstanding = a reconnect loop that no call drives
@@ -108,18 +133,78 @@ const STORM: usize = 200;
 /// one balanced case at a time per process: the "dead" ports are found by binding and releasing a listener
 static BALANCED_LOCK: Mutex<()> = Mutex::new(());
 
-fn run_balanced(b: &Balanced, o: &mut Outcome) -> Result<(), Failure> {
-    enum R {
-        Done(Result<(), (Code, String)>, usize),
-        Storm(usize),
-        Guard,
+/// Watches a real-time current-thread runtime from another thread. Two verdicts, both by counting:
+/// * storm: more than STORM connection attempts since the current call began;
+/// * deadlock: the worker is parked, no socket is registered with the I/O driver and nothing was polled for
+///   `idle_rounds` observations in a row - with no connection and no socket nothing can ever wake the call
+///   (the only timer is the harness' own guard).
+struct Monitor {
+    stop: Arc<std::sync::atomic::AtomicBool>,
+    verdict: Arc<Mutex<Option<&'static str>>>,
+    handle: Option<std::thread::JoinHandle<()>>,
+}
+impl Monitor {
+    fn start(rt: &tokio::runtime::Runtime, attempts: Arc<AtomicUsize>, call_base: Arc<AtomicUsize>, wake: Arc<tokio::sync::Notify>, need_no_fds: bool) -> Monitor {
+        let stop = Arc::new(std::sync::atomic::AtomicBool::new(false));
+        let verdict = Arc::new(Mutex::new(None));
+        let m = rt.handle().metrics();
+        let (stop2, verdict2) = (stop.clone(), verdict.clone());
+        let handle = std::thread::spawn(move || {
+            let mut last_polls = u64::MAX;
+            let mut streak = 0u32;
+            while !stop2.load(Ordering::SeqCst) {
+                std::thread::sleep(Duration::from_millis(2));
+                if attempts.load(Ordering::SeqCst).saturating_sub(call_base.load(Ordering::SeqCst)) > STORM {
+                    *verdict2.lock().unwrap() = Some("storm");
+                    wake.notify_one();
+                    return;
+                }
+                let fds = m.io_driver_fd_registered_count().saturating_sub(m.io_driver_fd_deregistered_count());
+                let parked = m.worker_park_unpark_count(0) % 2 == 1;
+                let polls = m.worker_poll_count(0);
+                if need_no_fds && fds == 0 && parked && polls == last_polls {
+                    streak += 1;
+                } else {
+                    streak = 0;
+                }
+                last_polls = polls;
+                if streak >= 150 {
+                    *verdict2.lock().unwrap() = Some("deadlock");
+                    wake.notify_one();
+                    return;
+                }
+            }
+        });
+        Monitor { stop, verdict, handle: Some(handle) }
     }
+    fn finish(mut self) -> Option<&'static str> {
+        self.stop.store(true, Ordering::SeqCst);
+        if let Some(h) = self.handle.take() {
+            let _ = h.join();
+        }
+        *self.verdict.lock().unwrap()
+    }
+}
+
+enum RealCall {
+    Done(Result<Vec<u8>, (Code, String)>, usize),
+    Storm(usize),
+    Deadlock(usize),
+    Guard,
+}
+
+fn run_balanced(b: &Balanced, o: &mut Outcome) -> Result<(), Failure> {
+    use RealCall as R;
     let _g = BALANCED_LOCK.lock().unwrap_or_else(|e| e.into_inner());
     let runtime = tokio::runtime::Builder::new_current_thread().enable_all().build().expect("runtime");
     let (attempts, thread) = crate::infra::tracecount::reconnect_attempts();
     *thread.lock().unwrap_or_else(|e| e.into_inner()) = Some(std::thread::current().id());
     let acc = attempts.clone();
     let b2 = b.clone();
+    let call_base = Arc::new(AtomicUsize::new(attempts.load(Ordering::SeqCst)));
+    let wake = Arc::new(tokio::sync::Notify::new());
+    let monitor = Monitor::start(&runtime, attempts.clone(), call_base.clone(), wake.clone(), true);
+    let verdict = monitor.verdict.clone();
     let res: Result<Vec<R>, String> = {
         runtime.block_on(async move {
             let mut eps = vec![];
@@ -134,26 +219,22 @@ fn run_balanced(b: &Balanced, o: &mut Outcome) -> Result<(), Failure> {
             let mut out = vec![];
             for _ in 0..b2.calls.max(1) {
                 let before = acc.load(Ordering::SeqCst);
-                let acc2 = acc.clone();
-                let storm = async move {
-                    loop {
-                        tokio::task::yield_now().await;
-                        let n = acc2.load(Ordering::SeqCst) - before;
-                        if n > STORM {
-                            return n;
-                        }
-                    }
-                };
+                call_base.store(before, Ordering::SeqCst);
                 tokio::select! {
                     biased;
-                    r = client.unary(b"ping".to_vec()) => out.push(R::Done(r.map(|_| ()).map_err(|s| (s.code(), s.message().to_string())), acc.load(Ordering::SeqCst) - before)),
-                    n = storm => { out.push(R::Storm(n)); break }
+                    r = client.unary(b"ping".to_vec()) => out.push(R::Done(r.map(|r| r.into_inner()).map_err(|s| (s.code(), s.message().to_string())), acc.load(Ordering::SeqCst) - before)),
+                    _ = wake.notified() => {
+                        let n = acc.load(Ordering::SeqCst) - before;
+                        out.push(if *verdict.lock().unwrap() == Some("storm") { R::Storm(n) } else { R::Deadlock(n) });
+                        break
+                    }
                     _ = tokio::time::sleep(Duration::from_secs(120)) => { out.push(R::Guard); break }
                 }
             }
             Ok(out)
         })
     };
+    let _ = monitor.finish();
     drop(runtime);
     let out = match res {
         Ok(o) => o,
@@ -168,17 +249,125 @@ fn run_balanced(b: &Balanced, o: &mut Outcome) -> Result<(), Failure> {
     o.nontrivial = b.calls > 1;
     for (i, r) in out.iter().enumerate() {
         match r {
-            R::Done(Ok(()), _) => bail!("C14/success-without-connection", "balanced channel: call {i} succeeded although nothing listens on its endpoints"),
+            R::Done(Ok(_), _) => bail!("C14/success-without-connection", "balanced channel: call {i} succeeded although nothing listens on its endpoints"),
             R::Done(Err((code, _)), n) => {
                 // the code is judged by the scripted-connector family; a foreign process may have taken the port
                 o.label_if(*code == Code::Unavailable, "balanced_unavailable");
                 o.label_if(*n > 0, "balanced_attempts_counted");
             }
             R::Storm(n) => bail!("C14/call-never-resolves/reconnect-loop", "balanced channel, all {} endpoints down: call {i} was not answered while {n} connection attempts were started", b.endpoints),
+            R::Deadlock(n) => bail!("C14/call-never-resolves/balanced-idle", "balanced channel, all {} endpoints down: call {i} was never answered - after {n} connection attempt(s) the runtime is parked with no socket registered and nothing left to poll", b.endpoints),
             R::Guard => {
                 println!("INCONCLUSIVE property=C14 balanced-channel call {i} neither resolved nor caused connection attempts within 120 s of real time");
                 std::process::exit(2);
             }
+        }
+    }
+    Ok(())
+}
+
+/// `unix:` endpoints use tonic's own connector (a different one from TCP and from custom connectors): a lazy
+/// or eager channel to a socket path where the server appears only before call `up_before`.
+fn run_uds(u: &Uds, o: &mut Outcome) -> Result<(), Failure> {
+    static SEQ: AtomicUsize = AtomicUsize::new(0);
+    let path = std::env::temp_dir().join(format!("vh-c14-{}-{}.sock", std::process::id(), SEQ.fetch_add(1, Ordering::SeqCst)));
+    let _ = std::fs::remove_file(&path);
+    let runtime = tokio::runtime::Builder::new_current_thread().enable_all().build().expect("runtime");
+    let sh = Shared::new(vec![HandlerScript { msgs: vec![RespMsg { data: Blob::of(b"pong"), pend: 0, delay_ms: 0 }], ..Default::default() }]);
+    let u2 = u.clone();
+    let p2 = path.clone();
+    let res: Result<(Option<bool>, Vec<Option<Result<Vec<u8>, (Code, String)>>>), String> = runtime.block_on(async move {
+        let uri = format!("unix:{}", p2.display());
+        let mut server: Option<tokio::task::JoinHandle<()>> = None;
+        let bring_up = |sh: Shared| {
+            let l = tokio::net::UnixListener::bind(&p2).map_err(|e| format!("bind {p2:?}: {e}"))?;
+            let incoming = async_stream::stream! {
+                loop {
+                    match l.accept().await {
+                        Ok((s, _)) => yield Ok::<_, std::io::Error>(s),
+                        Err(e) => yield Err(e),
+                    }
+                }
+            };
+            Ok::<_, String>(tokio::spawn(async move {
+                let _ = tonic::transport::Server::builder().add_service(vt::raw_server::RawServer::new(sh)).serve_with_incoming(incoming).await;
+            }))
+        };
+        if u2.up_before == 0 {
+            server = Some(bring_up(sh.clone())?);
+        }
+        let ep = tonic::transport::Endpoint::try_from(uri).map_err(|e| format!("{e:?}"))?;
+        let mut eager = None;
+        let ch = if u2.lazy {
+            ep.connect_lazy()
+        } else {
+            match tokio::time::timeout(Duration::from_secs(60), ep.connect()).await {
+                Err(_) => return Ok((None, vec![None])),
+                Ok(Ok(ch)) => {
+                    eager = Some(true);
+                    ch
+                }
+                Ok(Err(_)) => return Ok((Some(false), vec![])),
+            }
+        };
+        let mut client = vt::raw_client::RawClient::new(ch);
+        let mut out = vec![];
+        for i in 0..u2.calls.max(1) {
+            if i == u2.up_before && server.is_none() {
+                server = Some(bring_up(sh.clone())?);
+            }
+            match tokio::time::timeout(Duration::from_secs(60), client.unary(b"ping".to_vec())).await {
+                Err(_) => {
+                    out.push(None);
+                    break;
+                }
+                Ok(r) => out.push(Some(r.map(|r| r.into_inner()).map_err(|s| (s.code(), s.message().to_string())))),
+            }
+        }
+        if let Some(s) = server {
+            s.abort();
+        }
+        Ok((eager, out))
+    });
+    drop(runtime);
+    let _ = std::fs::remove_file(&path);
+    let (eager, out) = match res {
+        Ok(x) => x,
+        Err(e) => {
+            println!("INCONCLUSIVE property=C14 unix-socket family cannot use {path:?}: {e}");
+            std::process::exit(2);
+        }
+    };
+    o.label("unix_socket_endpoint");
+    o.label_if(u.lazy, "lazy");
+    o.label_if(!u.lazy, "eager");
+    o.nontrivial = u.up_before > 0 && u.up_before < u.calls;
+    if out.iter().any(|r| r.is_none()) {
+        println!("INCONCLUSIVE property=C14 a call (or the eager connect) over a unix socket did not resolve within 60 s of real time");
+        std::process::exit(2);
+    }
+    if !u.lazy {
+        if u.up_before == 0 {
+            ensure!(eager == Some(true), "C14/eager-connect-failed", "unix socket: eager connect failed although the server is listening");
+        } else {
+            ensure!(eager == Some(false), "C14/eager-connect-hides-failure", "unix socket: eager connect succeeded although nothing listens on the path");
+            o.label("eager_initial_failure");
+            return Ok(());
+        }
+    }
+    for (i, r) in out.iter().enumerate() {
+        let r = r.as_ref().unwrap();
+        if (i as u8) < u.up_before {
+            match r {
+                Ok(_) => bail!("C14/success-without-connection", "unix socket: call {i} succeeded before the server existed"),
+                Err((code, msg)) => ensure!(*code == Code::Unavailable, "C14/connect-failure-not-unavailable/unix-socket", "unix socket, nobody listening: call {i} failed with {code:?} {msg:?}"),
+            }
+        } else {
+            match r {
+                Ok(v) => ensure!(v == b"pong", "C14/response-altered", "unix socket: response {v:?}"),
+                Err(e) => bail!(if i > 0 && (i as u8) == u.up_before { "C14/no-recovery" } else { "C14/call-failed-on-live-connection" }, "unix socket: the server listens since before call {} but call {i} failed: {e:?}", u.up_before),
+            }
+            o.label_if(i > 0 && (i as u8) == u.up_before, "recovery");
         }
     }
     Ok(())
@@ -221,6 +410,9 @@ enum Obs {
 pub fn run(c: &Case, o: &mut Outcome) -> Result<(), Failure> {
     if let Some(b) = &c.balanced {
         return run_balanced(b, o);
+    }
+    if let Some(u) = &c.uds {
+        return run_uds(u, o);
     }
     let sh = Shared::new(vec![HandlerScript {
         msgs: vec![RespMsg { data: Blob::of(b"pong"), pend: 0, delay_ms: 0 }, RespMsg { data: Blob::of(b"pong2"), pend: 0, delay_ms: 0 }],
